@@ -49,7 +49,12 @@ ASSUMPTIONS = [
 
 HEADER = ('From Coq Require Import ZArith QArith List Bool.\n'
           'From Verif.Model Require Import Result StrGrader StrRegex.\n'
-          'From Verif.Gen Require StrGrader.\nImport ListNotations.\nOpen Scope Z_scope.\n')
+          'From Verif.Gen Require StrGrader.\nImport ListNotations.\nOpen Scope Z_scope.\n'
+          '(* strings are written as ONE number (little-endian base 2^21 digits = code point + 1): parsing long lists of\n'
+          '   small numerals dominates the run time otherwise *)\n'
+          'Fixpoint unpack_go (fuel : nat) (n : Z) : list Z :=\n'
+          '  match fuel with O => [] | S k => (Z.land n 2097151 - 1) :: unpack_go k (Z.shiftr n 21) end.\n'
+          'Definition S_ (len : nat) (n : Z) : str := unpack_go len n.\n')
 
 AGREE_DEFS = r'''
 Fixpoint assocz (c : Z) (l : list (Z * list Z)) : option (list Z) :=
@@ -332,7 +337,13 @@ def witness(case, obs, what, d):
 # Coq terms
 # ------------------------------------------------------------------------------------------------
 def slit(s):
-    return strlit(s)
+    """a Python str as a Coq term of type str (list of code points), packed into one hexadecimal numeral"""
+    if s == '':
+        return '(@nil Z)'
+    n = 0
+    for i, c in enumerate(s):
+        n += (ord(c) + 1) << (21 * i)
+    return '(S_ %d%%nat 0x%x)' % (len(s), n)
 
 
 def okterm(ok):
